@@ -226,4 +226,30 @@ PROPS = {
         "assumptions": ["within one repository sort keys are distinct (creation/edit Lamport times are unique per repository), so the order is fully determined; with ties the order among equals is unspecified"],
         "gen_facts": [],
     },
+    "C04": {
+        "level_text": "PARTIAL (byte level outside the model). Proved: for every operation of every kind and any field values, decoding its "
+                      "stored JSON tree gives back the operation (fromJ_toJ), hence a pack reads back as the same operations in order when "
+                      "ids are the hashes of the stored form (pack_roundtrip, op_id_stable); the tree Write builds is read back with the same "
+                      "blob and clocks and a foreign format version is refused (tree_roundtrip, tree_wrong_version); every attached file is "
+                      "referenced by the pack's extra tree (extra_tree_covers); Commit's cutting of the staging area into author runs "
+                      "preserves order and content, runs are non-empty and single-author (splitRuns_*); a linear history reads back in commit "
+                      "order (opsOf_chain) and the entity's first operation is the root's whatever is appended or merged (first_op_is_roots, "
+                      "append_keeps_first). Not modelled: how encoding/json renders strings/numbers, UTF-8 validity, decimal rendering of tree "
+                      "entry names, git's transfer of reachable blobs - these are compared on every generated case (stored blobs vs the "
+                      "model's tree, read-back on the same and on a second replica after push/pull, file availability).",
+        "level_note": "Trusted: Lean kernel, harness. Hash function H is a parameter (ids are assumed to be H of the stored form, as IdOperation "
+                      "and unmarshallPack both hash the same bytes). nil and empty slices are identified (Go reads both as length 0).",
+        "required_theorems": ["fromJ_toJ", "pack_roundtrip", "op_id_stable", "tree_roundtrip", "tree_wrong_version", "extra_tree_covers",
+                              "splitRuns_flatten", "splitRuns_nonempty", "splitRuns_same_author", "sortPacks_chain", "opsOf_chain",
+                              "first_op_is_roots", "append_keeps_first"],
+        "slices": ["C04"],
+        "rule": "bugs built from the operation constructors (all 8 kinds, unicode / whitespace / long text / empty-but-valid fields, metadata, "
+                "real attachment blobs, 3 authors alternating inside one staging area), committed in random chunkings; compared: ids, "
+                "payloads, authors, order before commit vs after bug.Read on the same repository (mock and go-git) and on a second go-git "
+                "replica after push/pull; stored pack blobs parsed generically vs the model's JSON tree and author runs; non-trivial = at "
+                "least one operation after the create; distinct = distinct staging lists",
+        "trusted_base": [KERNEL, TIE, "model: GitBugModel.Pack (toJ, fromJ, writeTree, readTree, splitRuns, extraFiles)"],
+        "assumptions": ["no SHA-256 collisions among operation encodings of one entity (Entity.Validate checks)"],
+        "gen_facts": [],
+    },
 }
